@@ -13,9 +13,10 @@ TraceLog == ndJsonDeserialize(TraceFile)
 
 VARIABLES l,        \* next line to consume
           st,       \* replica id -> table state [kv, idx, lidx]
-          pinned    \* replica id -> table state pinned by the last PrepareSnapshot
+          pinned,   \* replica id -> table state pinned by the last PrepareSnapshot
+          hist      \* recorded contents of replica 1 during a concurrent section: hist[j+1] = content after j updates
 
-vars == <<l, st, pinned>>
+vars == <<l, st, pinned, hist>>
 
 Reps == 1..4
 
@@ -27,6 +28,7 @@ TInit == /\ TLCSet(7, {})
          /\ l = 1
          /\ st = [r \in Reps |-> InitTable]
          /\ pinned = [r \in Reps |-> InitTable]
+         /\ hist = <<>>
 
 Ev == TraceLog[l]
 IsEvent(name) == l <= Len(TraceLog) /\ Ev.ev = name /\ l' = l + 1
@@ -69,6 +71,7 @@ TUpdate ==
      /\ Ev.idx = x.st.idx        \* C01: reported applied index = index of last command
      /\ Ev.lidx = x.st.lidx      \* C03: leader index is a function of the log
      /\ st' = [st EXCEPT ![Ev.rep] = x.st]
+     /\ hist' = IF hist # <<>> /\ Ev.rep = 1 THEN Append(hist, x.st.kv) ELSE hist
   /\ UNCHANGED pinned
 
 (***************************************************************************)
@@ -81,7 +84,7 @@ LookupOK(kv, op, got) == RangeMatch(RangeRead(kv, op), got)
 TLookup ==
   /\ IsEvent("lookup")
   /\ LookupOK(st[Ev.rep].kv, Ev.op, Ev.r)
-  /\ UNCHANGED <<st, pinned>>
+  /\ UNCHANGED <<st, pinned, hist>>
 
 \* streamed range read: chunks concatenate to the unbounded answer
 RECURSIVE Concat(_)
@@ -107,7 +110,7 @@ IterOK(kv, op, chunks) ==
 TIter ==
   /\ IsEvent("iter")
   /\ IterOK(st[Ev.rep].kv, Ev.op, Ev.chunks)
-  /\ UNCHANGED <<st, pinned>>
+  /\ UNCHANGED <<st, pinned, hist>>
 
 \* read-only transaction through Lookup: same answers as the write path would give (C02)
 TRoTxn ==
@@ -115,13 +118,13 @@ TRoTxn ==
   /\ LET x == RoTxn(st[Ev.rep].kv, Ev.c) IN
      /\ Ev.ok = x.ok
      /\ RespsMatchT(x.r, Ev.rs)
-  /\ UNCHANGED <<st, pinned>>
+  /\ UNCHANGED <<st, pinned, hist>>
 
 TIndex ==
   /\ IsEvent("index")
   /\ Ev.idx = st[Ev.rep].idx
   /\ Ev.lidx = st[Ev.rep].lidx
-  /\ UNCHANGED <<st, pinned>>
+  /\ UNCHANGED <<st, pinned, hist>>
 
 (***************************************************************************)
 (* clean close + reopen, snapshot transfer (C03, C08 content)              *)
@@ -129,24 +132,56 @@ TIndex ==
 TReopen ==
   /\ IsEvent("reopen")
   /\ Ev.idx = st[Ev.rep].idx
-  /\ UNCHANGED <<st, pinned>>
+  /\ UNCHANGED <<st, pinned, hist>>
 
 TPrepare ==
   /\ IsEvent("prepare")
   /\ pinned' = [pinned EXCEPT ![Ev.rep] = st[Ev.rep]]
-  /\ UNCHANGED st
+  /\ UNCHANGED <<st, hist>>
 
 TRecover ==
   /\ IsEvent("recover")
   /\ st' = [st EXCEPT ![Ev.to] = pinned[Ev.from]]
-  /\ UNCHANGED pinned
+  /\ UNCHANGED <<pinned, hist>>
 
 TReset ==
   /\ IsEvent("reset")
   /\ st' = [r \in Reps |-> InitTable]
   /\ pinned' = [r \in Reps |-> InitTable]
+  /\ hist' = <<>>
 
-TNext == TUpdate \/ TLookup \/ TIter \/ TRoTxn \/ TIndex \/ TReopen \/ TPrepare \/ TRecover \/ TReset
+(***************************************************************************)
+(* Concurrent section (C02 atomic visibility, C09 point-in-time view):     *)
+(* one writer applies updates while readers run.  "rec_start" starts       *)
+(* recording the content after every update.  A reader event carries       *)
+(* s = number of updates COMPLETED when the read was invoked and           *)
+(* e = number of updates STARTED when it returned; the answer must be the  *)
+(* answer of ONE of the contents hist[s+1] .. hist[e+1] - a state that     *)
+(* existed, never a mixture.                                               *)
+(***************************************************************************)
+TRecStart ==
+  /\ IsEvent("rec_start")
+  /\ hist' = <<st[1].kv>>
+  /\ UNCHANGED <<st, pinned>>
+
+Window == {j \in (Ev.s + 1)..(Ev.e + 1) : j <= Len(hist)}
+
+TRoTxnAt ==
+  /\ IsEvent("rotxn_at")
+  /\ \E j \in Window : LET x == RoTxn(hist[j], Ev.c) IN Ev.ok = x.ok /\ RespsMatchT(x.r, Ev.rs)
+  /\ UNCHANGED <<st, pinned, hist>>
+
+TLookupAt ==
+  /\ IsEvent("lookup_at")
+  /\ \E j \in Window : LookupOK(hist[j], Ev.op, Ev.r)
+  /\ UNCHANGED <<st, pinned, hist>>
+
+TIterAt ==
+  /\ IsEvent("iter_at")
+  /\ \E j \in Window : IterOK(hist[j], Ev.op, Ev.chunks)
+  /\ UNCHANGED <<st, pinned, hist>>
+
+TNext == TRecStart \/ TRoTxnAt \/ TLookupAt \/ TIterAt \/ TUpdate \/ TLookup \/ TIter \/ TRoTxn \/ TIndex \/ TReopen \/ TPrepare \/ TRecover \/ TReset
 
 TSpec == TInit /\ [][TNext]_vars
 
